@@ -104,22 +104,18 @@ func r16dep(c *core.Ctx) {
 	}
 	c.Check(okRan && m >= 10000, R, "stgutg.CreateUE:ran-ue-ngap-id", call.Pos(), fmt.Sprintf("(f(imsi)+index) %% %d", m), "RAN-UE-NGAP-ID is %s: it must be (f(IMSI) + index) mod M with a constant M >= 10000 so that up to 10000 UEs get distinct ids", clip(ran))
 	// main passes the loop index (0-based, step 1)
+	i := 0
 
-	if who := mainDelegates(c); who != "" {
-		c.SoftUndecided("%s: main hands the modes over to %s; the main-level rules read the body of main only", R, who)
-		return
-	}
-	mainFn := mustFunc(c, pMain, "main")
-	mp := core.NewPather(mainFn)
-	for i, ci := range core.CallsTo(mainFn, pStg+".CreateUE") {
-		arg := ci.Common().Args[1]
+	for _, mc := range mainCallsTo(c, pStg+".CreateUE") {
+		arg := mc.ci.Common().Args[1]
 		ok := false
-		for _, l := range loopBounds(mainFn) {
+		for _, l := range loopBounds(mc.b.fn) {
 			if ssa.Value(l.phi) == arg && l.initOK && l.init == 0 && l.step == 1 {
 				ok = true
 			}
 		}
-		c.Check(ok, R, fmt.Sprintf("main:CreateUE#%d:index", i+1), ci.Pos(), "loop index (from 0, step 1)", "CreateUE must receive the UE loop index, receives %s", mp.Path(arg))
+		i++
+		c.Check(ok, R, fmt.Sprintf("main:CreateUE#%d:index", i), mc.ci.Pos(), "loop index (from 0, step 1)", "CreateUE must receive the UE loop index, receives %s", mc.b.p.Path(arg))
 	}
 }
 
